@@ -6,9 +6,13 @@ package main
 
 import (
 	"fmt"
+	"os"
+	"strings"
 
 	"golang.org/x/tools/go/ssa"
 )
+
+var hbDebug = os.Getenv("GOSYM_HB_DEBUG") != ""
 
 type vclock []int
 
@@ -138,9 +142,22 @@ func (r *Run) hbRelease(g *G, obj interface{}) {
 	}
 }
 func (r *Run) hbReleaseShared(g *G, obj interface{}) { r.hbRelease(g, obj) }
-func (r *Run) hbAtomic(g *G, p Ptr) {
+// Go memory model: an atomic operation that observes the effect of another is synchronised after it.
+// A load only acquires, a store only releases, read-modify-write operations do both (two loads never
+// synchronise with each other).
+func (r *Run) hbAtomic(g *G, p Ptr) { // read-modify-write
 	if r.hb != nil {
 		r.hb.acquire(g, p)
+		r.hb.release(g, p)
+	}
+}
+func (r *Run) hbAtomicLoad(g *G, p Ptr) {
+	if r.hb != nil {
+		r.hb.acquire(g, p)
+	}
+}
+func (r *Run) hbAtomicStore(g *G, p Ptr) {
+	if r.hb != nil {
 		r.hb.release(g, p)
 	}
 }
@@ -166,12 +183,46 @@ func (r *Run) hbChanHandoff(sender, receiver *G, ch *ChanObj) {
 	}
 }
 
-// access records a read/write of a heap cell or map object.
+// access records a read/write of a heap cell or map object. A load or store of a whole struct / array
+// is also an access to each of its fields / elements (two levels), so that it conflicts with field-wise
+// accesses of another goroutine.
 func (r *Run) access(g *G, cell interface{}, write bool, in ssa.Instruction) {
-	if r.hb == nil || g == nil {
-		return
+	if r.hb == nil || g == nil || g.id < 0 {
+		return // (private goroutines of summarised callees only touch their arguments' locals)
+	}
+	if p, ok := cell.(Ptr); ok && p != nil && r.hbDepth < 2 {
+		switch agg := (*p).(type) {
+		case Struct:
+			r.hbDepth++
+			for i := range agg {
+				r.access(g, Ptr(&agg[i]), write, in)
+			}
+			r.hbDepth--
+		case Array:
+			if len(agg) <= 8 {
+				r.hbDepth++
+				for i := range agg {
+					r.access(g, Ptr(&agg[i]), write, in)
+				}
+				r.hbDepth--
+			}
+		}
 	}
 	h := r.hb
+	// the Go-source models of badger / bigcache are atomic sections by assumption (DESIGN §2.6): their
+	// internal maps are exempt; so are the harness' own accesses
+	if len(g.stack) > 0 {
+		fr := g.top()
+		if fr.fn.Pkg != nil && strings.HasSuffix(fr.fn.Pkg.Pkg.Path(), "/verifrt") {
+			return
+		}
+		if strings.HasPrefix(fr.fn.Name(), "VH_") || strings.HasPrefix(fr.fn.Name(), "vh") {
+			return
+		}
+		if fr.fn.Parent() != nil && (strings.HasPrefix(fr.fn.Parent().Name(), "VH_") || strings.HasPrefix(fr.fn.Parent().Name(), "vh")) {
+			return
+		}
+	}
 	// stack-local cells (allocated by this frame and not escaped) would need escape
 	// analysis; we only track cells once a second goroutine exists.
 	if len(r.gs) < 2 {
@@ -186,6 +237,13 @@ func (r *Run) access(g *G, cell interface{}, write bool, in ssa.Instruction) {
 	if len(g.stack) > 0 {
 		now.fn = g.top().fn.String()
 		now.pos = r.curPos(g)
+	}
+	if hbDebug && (strings.Contains(now.fn, "runTruncate") || strings.Contains(now.fn, "signalTruncate")) {
+		lw := "nil"
+		if cs.lastWrite != nil {
+			lw = fmt.Sprintf("g%d %v %s", cs.lastWrite.g, cs.lastWrite.clock, cs.lastWrite.fn)
+		}
+		fmt.Fprintf(os.Stderr, "HB %p g%d write=%v clock=%v fn=%s pos=%s lastWrite=%s\n", cell, g.id, write, now.clock, now.fn, now.pos, lw)
 	}
 	report := func(prev *accessRec) {
 		key := fmt.Sprintf("%s|%s", prev.fn, now.fn)
